@@ -114,7 +114,21 @@ class FA:
         if d.kind != 'stmt' or not isinstance(d.ast, ast.Assign):
             return None
         tg = [t for t in d.ast.targets if astx.path(t) == name]
-        if not tg or not all(isinstance(t, ast.Name) for t in d.ast.targets):
+        if not tg:
+            return None
+        if not all(isinstance(t, ast.Name) for t in d.ast.targets):
+            # `name = self.attr = value` (any order): name is an alias of self.attr while self.attr is not rebound
+            sib = [t for t in d.ast.targets if isinstance(t, ast.Attribute) and (astx.path(t) or '').startswith('self.')
+                   and astx.path(t).count('.') == 1]
+            if len(sib) == 1 and all(isinstance(t, (ast.Name, ast.Attribute)) for t in d.ast.targets):
+                sp = astx.path(sib[0])
+                rebinds = [st for st in astx.walk_stmts(self.fn.node.body)
+                           if isinstance(st, (ast.Assign, ast.AugAssign, ast.AnnAssign)) and
+                           any(astx.path(t) == sp for t in astx.assigned_targets(st))]
+                if len(rebinds) == 1:
+                    r = clone(sib[0])
+                    r.ctx = ast.Load()
+                    return r
             return None
         v = d.ast.value
         if _has_call(v):
@@ -180,6 +194,35 @@ class FA:
                 acc.pop()
         rec(g.entry, [], {g.entry})
         return out
+
+
+def path_expand(fa, p, e, upto, depth=0):
+    """Copy of e in which local names are replaced by the value last assigned to them ON PATH p before node
+    `upto` (simple `name = expr` assignments only; names assigned in any other way are left alone)."""
+    nodes = [n for n, _ in p]
+    if upto in nodes:
+        nodes = nodes[:nodes.index(upto)]
+    last = {}
+    for n in nodes:
+        if n.kind in ('stmt', 'iter', 'with'):
+            for t in astx.assigned_targets(n.ast):
+                pth = astx.path(t)
+                if pth and isinstance(t, ast.Name):
+                    ok = n.kind == 'stmt' and isinstance(n.ast, ast.Assign) and len(n.ast.targets) == 1 and \
+                        n.ast.targets[0] is t
+                    last[pth] = n if ok else None
+
+    class T(ast.NodeTransformer):
+        def visit_Name(self, node):
+            d = last.get(node.id)
+            if d is not None and depth < 8:
+                return path_expand(fa, p, d.ast.value, d, depth + 1)
+            return node
+    r = T().visit(clone(e))
+    for x in ast.walk(r):
+        if hasattr(x, 'ctx'):
+            x.ctx = ast.Load()
+    return r
 
 
 def strip_full(e):
@@ -371,38 +414,110 @@ def factor_truth(fa, node, label):
 
 # =========================================================================== facts about _build
 class CompressedBuild:
-    """Facts extracted from CSCMatrix._build / CSRMatrix._build (own definition of the class)."""
+    """Facts extracted from CSCMatrix._build / CSRMatrix._build.  The lexsort-based map computation may live
+    in _build itself or in a helper method called from _build whose result is stored in a self attribute."""
 
-    def __init__(self, repo, rel, cls):
-        self.fn = repo.func(rel, f'{cls}._build')
-        self.fa = fa = FA(self.fn)
-        self.sort_call = self.sort_stmt = self.sort_name = None
+    @staticmethod
+    def _find_sort(fa):
+        found = []
         for n in fa.g.nodes:
             if n.kind == 'stmt' and isinstance(n.ast, ast.Assign) and len(n.ast.targets) == 1 and \
                     isinstance(n.ast.targets[0], ast.Name) and isinstance(n.ast.value, ast.Call) and \
                     astx.callee_attr(n.ast.value) == 'lexsort':
-                if self.sort_call is not None:
-                    raise AnalysisError(f'{self.fn.ident}: more than one lexsort')
-                self.sort_call, self.sort_stmt, self.sort_name = n.ast.value, n, n.ast.targets[0].id
-        if self.sort_call is None:
-            raise AnalysisError(f'{self.fn.ident}: no `name = np.lexsort(...)` found')
-        # attributes written element-wise in _build: self.X[...] = ...
-        self.elem_stores = []   # (node, attr path, expanded index, value)
+                found.append(n)
+        return found
+
+    def __init__(self, repo, rel, cls):
+        self.bfn = repo.func(rel, f'{cls}._build')
+        self.bfa = bfa = FA(self.bfn)
+        self.fn, self.fa = self.bfn, bfa
+        self.call_node = None
+        self.param_args = {}
+        found = self._find_sort(bfa)
+        if not found:
+            for n in bfa.g.nodes:
+                if n.kind != 'stmt' or not isinstance(n.ast, ast.Assign) or not isinstance(n.ast.value, ast.Call):
+                    continue
+                c = n.ast.value
+                if astx.path(astx.receiver(c)) not in ('self', cls, 'self.__class__'):
+                    continue
+                h = repo.lookup(rel, cls, astx.callee_attr(c))
+                if h is None:
+                    continue
+                hfa = FA(h)
+                hf = self._find_sort(hfa)
+                if not hf:
+                    continue
+                if self.call_node is not None:
+                    raise AnalysisError(f'{self.bfn.ident}: more than one helper with lexsort')
+                params = list(hfa.params)
+                if 'staticmethod' not in h.decorators() and params:
+                    params = params[1:]
+                if any(isinstance(a, ast.Starred) for a in c.args) or len(c.args) > len(params):
+                    raise AnalysisError(f'{self.bfn.ident}: helper call arguments not understood')
+                self.param_args = dict(zip(params, c.args))
+                for k in c.keywords:
+                    if k.arg:
+                        self.param_args[k.arg] = k.value
+                self.fn, self.fa, self.call_node, found = h, hfa, n, hf
+        if len(found) != 1:
+            raise AnalysisError(f'{self.bfn.ident}: expected exactly one `name = np.lexsort(...)` in _build or in a '
+                                f'helper called from it, found {len(found)}')
+        fa = self.fa
+        self.sort_stmt = found[0]
+        self.sort_call, self.sort_name = found[0].ast.value, found[0].ast.targets[0].id
+        # element-wise stores in the lexsort function:  X[...] = ...
+        self.elem_stores = []   # (node, path of X, index, value)
         for n in fa.g.nodes:
             if n.kind == 'stmt' and isinstance(n.ast, ast.Assign) and len(n.ast.targets) == 1 and \
                     isinstance(n.ast.targets[0], ast.Subscript):
                 t = n.ast.targets[0]
-                p = astx.path(t.value)
-                if p and p.startswith('self.') and p.count('.') == 1:
+                p = fa.xp(t.value, n) or astx.path(t.value)
+                if p:
                     self.elem_stores.append((n, p, t.slice, n.ast.value))
         # the many-to-one map: stored through the sort order
         self.map_stores = [(n, p, s, v) for n, p, s, v in self.elem_stores
                            if isinstance(s, ast.Name) and s.id == self.sort_name]
-        self.map_attrs = {p for _, p, _, _ in self.map_stores}
-        # the within-subjac duplicate flag: self.D[key] = <... unique ...> inside a loop
-        self.flag_stores = [(n, p, s, v) for n, p, s, v in self.elem_stores
-                            if astx.mentions(v, 'unique') and astx.enclosing(n.ast, (ast.For,)) is not None]
+        if self.call_node is None:
+            self.map_stores = [x for x in self.map_stores if x[1].startswith('self.') and x[1].count('.') == 1]
+            self.map_attrs = {p for _, p, _, _ in self.map_stores}
+        else:
+            rets = {astx.path(st.value) for st in astx.walk_stmts(self.fn.node.body) if isinstance(st, ast.Return)}
+            self.map_stores = [x for x in self.map_stores if rets == {x[1]}]
+            self.map_attrs = {astx.path(t) for t in self.call_node.ast.targets
+                              if (astx.path(t) or '').startswith('self.')} if self.map_stores else set()
+        # the within-subjac duplicate flag (always in _build): <self.D or alias>[key] = <... unique ...> in a loop
+        self.flag_stores = []
+        for n in bfa.g.nodes:
+            if n.kind == 'stmt' and isinstance(n.ast, ast.Assign) and len(n.ast.targets) == 1 and \
+                    isinstance(n.ast.targets[0], ast.Subscript) and astx.mentions(n.ast.value, 'unique') and \
+                    astx.enclosing(n.ast, (ast.For,)) is not None:
+                t = n.ast.targets[0]
+                p = bfa.xp(t.value, n) or astx.path(t.value)
+                if p and p.startswith('self.'):
+                    self.flag_stores.append((n, p, t.slice, n.ast.value))
         self.flag_attrs = {p for _, p, _, _ in self.flag_stores}
+
+    def lexpand(self, e, at):
+        """Expression of the lexsort function with local aliases expanded and, for a helper, its parameters
+        replaced by the (alias-expanded) arguments of the call in _build."""
+        x = self.fa.expand(e, at)
+        if self.call_node is None:
+            return x
+        cb = self
+
+        class T(ast.NodeTransformer):
+            def visit_Name(self, node):
+                a = cb.param_args.get(node.id)
+                if a is not None and cb.fa.rd.defs(at, node.id) == {cb.fa.g.entry}:
+                    return cb.bfa.expand(a, cb.call_node)
+                return node
+        return T().visit(x)
+
+    def role(self, e, at):
+        """'row' / 'col' / 'data' if e (in the lexsort function) denotes self._coo.<role>."""
+        return {'self._coo.row': 'row', 'self._coo.col': 'col', 'self._coo.data': 'data'}.get(
+            astx.path(self.lexpand(e, at)))
 
 
 def _zeroes(fa, node, buf):
@@ -565,7 +680,7 @@ def accum(repo, out):
         # the duplicate flag table
         if not cb.flag_stores:
             if any(e.kind == 'accum-buffered' for e in accs):
-                out.bad(cb.fn, cb.fn.node, f'{cls}._build computes no within-subjac duplicate flag', key='dup-flag')
+                out.bad(cb.bfn, cb.bfn.node, f'{cls}._build computes no within-subjac duplicate flag', key='dup-flag')
         for n, p, s, v in cb.flag_stores:
             _check_dup_flag(out, cb, n, p, v)
 
@@ -578,13 +693,13 @@ DOMAIN_NU = [(0, 0), (1, 1), (2, 1), (2, 2), (3, 1), (3, 2), (3, 3), (5, 2), (5,
 
 def _check_dup_flag(out, cb, n, attr, v):
     """flag must be truthy whenever the number of unique mapped indices is smaller than the count."""
-    fa = cb.fa
+    fa = cb.bfa
     vx = fa.expand(v, n)
     loop = astx.enclosing(n.ast, (ast.For,))
     it = astx.path(loop.iter) if loop is not None else None
     uniq_args = [c.args[0] for c in astx.calls(vx) if astx.callee_attr(c) == 'unique' and c.args]
     if not uniq_args or it not in ('self._coo_slices.items()',):
-        out.unsure(cb.fn, n.ast, 'duplicate flag idiom not recognised (expected a loop over '
+        out.unsure(cb.bfn, n.ast, 'duplicate flag idiom not recognised (expected a loop over '
                    'self._coo_slices.items() and np.unique(map[coo_slice]))')
         return
     base = uniq_args[0]
@@ -594,12 +709,12 @@ def _check_dup_flag(out, cb, n, attr, v):
     good_base = isinstance(base, ast.Subscript) and astx.path(base.value) in cb.map_attrs and \
         isinstance(base.slice, ast.Name) and base.slice.id == slice_var
     if not good_base:
-        out.bad(cb.fn, n.ast, f'duplicate flag is computed from `{astx.src(base)}`, not from the COO->compressed '
+        out.bad(cb.bfn, n.ast, f'duplicate flag is computed from `{astx.src(base)}`, not from the COO->compressed '
                 f'map restricted to the sub-jacobian\'s slice ({sorted(cb.map_attrs)}[{slice_var}])',
                 key='dup-flag-source')
         return
     if not (isinstance(n.ast.targets[0].slice, ast.Name) and n.ast.targets[0].slice.id == key_var):
-        out.bad(cb.fn, n.ast, 'duplicate flag stored under a key that is not the loop key', key='dup-flag-key')
+        out.bad(cb.bfn, n.ast, 'duplicate flag stored under a key that is not the loop key', key='dup-flag-key')
         return
     bdump = dump(base)
 
@@ -624,15 +739,15 @@ def _check_dup_flag(out, cb, n, attr, v):
         for nn, uu in DOMAIN_NU:
             val = ev(vx, env_for(nn, uu))
             if uu < nn and not val:
-                out.bad(cb.fn, n.ast, f'duplicate flag `{astx.src(v)}` is false for a sub-jacobian with {nn} '
+                out.bad(cb.bfn, n.ast, f'duplicate flag `{astx.src(v)}` is false for a sub-jacobian with {nn} '
                         f'entries mapped to {uu} distinct positions: the buffered `+=` then loses '
                         'contributions', key='dup-flag-formula')
                 return
     except Unknown as u:
-        out.unsure(cb.fn, n.ast, f'unrecognised term in duplicate flag: {astx.src(u.node)}')
+        out.unsure(cb.bfn, n.ast, f'unrecognised term in duplicate flag: {astx.src(u.node)}')
         return
     out.count('flag_states', len(DOMAIN_NU))
-    out.ok(cb.fn, n.ast, f'flag is set whenever unique(map[slice]).size < size ({len(DOMAIN_NU)} abstract states)')
+    out.ok(cb.bfn, n.ast, f'flag is set whenever unique(map[slice]).size < size ({len(DOMAIN_NU)} abstract states)')
 
 
 def _dense_accum(repo, out):
@@ -818,38 +933,39 @@ def order_key(repo, out):
     for rel, cls, ctor in COMPRESSED:
         cb = CompressedBuild(repo, rel, cls)
         fa, fn = cb.fa, cb.fn
+        bfa, bfn = cb.bfa, cb.bfn
         # container assigned to self._matrix
-        mats = [n for n in fa.g.nodes if n.kind == 'stmt' and isinstance(n.ast, ast.Assign) and
+        mats = [n for n in bfa.g.nodes if n.kind == 'stmt' and isinstance(n.ast, ast.Assign) and
                 any(astx.path(t) == 'self._matrix' for t in n.ast.targets)]
         if len(mats) != 1 or not isinstance(mats[0].ast.value, ast.Call):
-            out.unsure(fn, fn.node, 'expected exactly one `self._matrix = <scipy constructor>(...)`')
+            out.unsure(bfn, bfn.node, 'expected exactly one `self._matrix = <scipy constructor>(...)`')
             continue
         mcall = mats[0].ast.value
         kind = astx.callee_attr(mcall)
         major = {'csc_matrix': 'col', 'csc_array': 'col', 'csr_matrix': 'row', 'csr_array': 'row'}.get(kind)
         if major is None:
-            out.unsure(fn, mats[0].ast, f'self._matrix is built by `{kind}`, not a compressed scipy container')
+            out.unsure(bfn, mats[0].ast, f'self._matrix is built by `{kind}`, not a compressed scipy container')
             continue
         # ij order of the constructor
         a0 = mcall.args[0] if mcall.args else None
         if isinstance(a0, ast.Tuple) and len(a0.elts) == 2 and isinstance(a0.elts[1], ast.Tuple) and \
                 len(a0.elts[1].elts) == 2:
-            roles = [_coo_role(fa, x, mats[0]) for x in a0.elts[1].elts]
-            if roles == ['row', 'col'] and _coo_role(fa, a0.elts[0], mats[0]) == 'data':
-                out.ok(fn, mats[0].ast, f'{kind}((data, (row, col))) built from the COO arrays')
+            roles = [_coo_role(bfa, x, mats[0]) for x in a0.elts[1].elts]
+            if roles == ['row', 'col'] and _coo_role(bfa, a0.elts[0], mats[0]) == 'data':
+                out.ok(bfn, mats[0].ast, f'{kind}((data, (row, col))) built from the COO arrays')
             elif roles == ['col', 'row']:
-                out.bad(fn, mats[0].ast, f'{kind} is given (col, row) as its (i, j) index pair: the assembled '
+                out.bad(bfn, mats[0].ast, f'{kind} is given (col, row) as its (i, j) index pair: the assembled '
                         'matrix is the transpose pattern', key='ij-order')
             else:
-                out.unsure(fn, mats[0].ast, 'constructor index arrays are not self._coo.row / self._coo.col')
+                out.unsure(bfn, mats[0].ast, 'constructor index arrays are not self._coo.row / self._coo.col')
         else:
-            out.unsure(fn, mats[0].ast, 'constructor argument is not (data, (row, col))')
+            out.unsure(bfn, mats[0].ast, 'constructor argument is not (data, (row, col))')
         # lexsort keys
         ka = cb.sort_call.args[0] if cb.sort_call.args else None
         if not (isinstance(ka, (ast.Tuple, ast.List)) and len(ka.elts) == 2):
             out.unsure(fn, cb.sort_stmt.ast, 'lexsort argument is not a 2-tuple of keys')
         else:
-            roles = [_coo_role(fa, x, cb.sort_stmt) for x in ka.elts]
+            roles = [cb.role(x, cb.sort_stmt) for x in ka.elts]
             minor = 'row' if major == 'col' else 'col'
             if roles == [minor, major]:
                 out.ok(fn, cb.sort_stmt.ast, f'lexsort primary (last) key is {major}, secondary {minor}: the order '
@@ -866,7 +982,7 @@ def order_key(repo, out):
             if n.kind == 'stmt' and isinstance(n.ast, ast.Assign) and len(n.ast.targets) == 1 and \
                     isinstance(n.ast.targets[0], ast.Name) and isinstance(n.ast.value, ast.Subscript) and \
                     isinstance(n.ast.value.slice, ast.Name) and n.ast.value.slice.id == cb.sort_name:
-                r = _coo_role(fa, n.ast.value.value, n)
+                r = cb.role(n.ast.value.value, n)
                 if r:
                     sorted_of[n.ast.targets[0].id] = r
 
@@ -882,7 +998,7 @@ def order_key(repo, out):
                         return sorted_of[s.id]
                     if isinstance(s, ast.Subscript) and isinstance(s.slice, ast.Name) and \
                             s.slice.id == cb.sort_name:
-                        return _coo_role(fa, s.value, cb.sort_stmt)
+                        return cb.role(s.value, cb.sort_stmt)
             return None
         news = []
         for n in fa.g.nodes:
@@ -919,7 +1035,7 @@ def order_key(repo, out):
         guards = [a for a in astx.ancestors(nn.ast) if isinstance(a, ast.If)]
         gok = True
         for gi in guards:
-            gx = fa.expand(gi.test, fa.at(gi))
+            gx = cb.lexpand(gi.test, fa.at(gi))
             try:
                 for k in (2, 3, 10):
                     def env(x, k=k):
@@ -1014,17 +1130,33 @@ def _slices_loop(fa, out, fn, what):
         out.unsure(fn, fn.node, f'{what}: expected one loop calling as_coo_info, found {len(loops)}')
         return
     loop = loops[0]
-    if not (isinstance(loop.iter, ast.Call) and astx.callee_attr(loop.iter) == 'items' and
-            fa.xp(astx.receiver(loop.iter), fa.at(loop)) == 'self._submats' and
-            isinstance(loop.target, ast.Tuple) and len(loop.target.elts) == 2):
-        out.unsure(fn, loop, f'{what}: loop is not `for key, submat in self._submats.items()`')
+    hdr = fa.at(loop)
+    # for key, submat in self._submats.items()   |   for key in self._submats[.keys()] ... self._submats[key]
+    key_var = sub_var = None
+    it = loop.iter
+    if isinstance(it, ast.Call) and astx.callee_attr(it) == 'items' and not it.args and \
+            fa.xp(astx.receiver(it), hdr) == 'self._submats' and isinstance(loop.target, ast.Tuple) and \
+            len(loop.target.elts) == 2 and all(isinstance(e, ast.Name) for e in loop.target.elts):
+        key_var, sub_var = (e.id for e in loop.target.elts)
+    elif isinstance(loop.target, ast.Name) and (
+            fa.xp(it, hdr) == 'self._submats' or
+            (isinstance(it, ast.Call) and astx.callee_attr(it) == 'keys' and not it.args and
+             fa.xp(astx.receiver(it), hdr) == 'self._submats')):
+        key_var = loop.target.id
+    else:
+        out.unsure(fn, loop, f'{what}: loop does not iterate over all of self._submats (items() or keys)')
         return
-    key_var, sub_var = (e.id if isinstance(e, ast.Name) else None for e in loop.target.elts)
     if any(not isinstance(st, (ast.Assign, ast.AugAssign, ast.Expr)) for st in loop.body):
         out.unsure(fn, loop, f'{what}: loop body is not straight-line code')
         return
+    sub_names = {sub_var} if sub_var else set()
+
+    def is_sub(e, at):
+        if isinstance(e, ast.Name):
+            return e.id in sub_names
+        return isinstance(e, ast.Subscript) and fa.xp(e.value, at) == 'self._submats' and \
+            isinstance(e.slice, ast.Name) and e.slice.id == key_var
     # counters: names assigned an int constant 0 before the loop and re-assigned in the body
-    hdr = fa.at(loop)
     env = {}
     body_targets = {astx.path(t) for st in loop.body for t in astx.assigned_targets(st)}
     for nm in sorted(x for x in body_targets if x and '.' not in x and '[' not in x):
@@ -1037,11 +1169,12 @@ def _slices_loop(fa, out, fn, what):
         if ds and all(d.kind == 'stmt' and isinstance(d.ast, ast.Assign) and is_zero(d.ast.value) and
                       all(isinstance(t, ast.Name) for t in d.ast.targets) for d in ds):
             env[nm] = Lin(0)                  # set to 0 before the loop and never updated in it
-    rc = {}                                   # unpacked names -> 'data' / 'row' / 'col'
-    size_syms = set()
+    rc = {}                                   # names -> 'data' / 'row' / 'col' (parts of the as_coo_info result)
+    info_names = set()                        # names bound to the whole as_coo_info result
     problems = []
     recorded = None
     fills = {}
+    ROLES = ('data', 'row', 'col')
 
     def lin(e):
         if isinstance(e, ast.Constant) and isinstance(e.value, int):
@@ -1051,10 +1184,15 @@ def _slices_loop(fa, out, fn, what):
                 return env[e.id]
             raise Unknown(e)
         if isinstance(e, ast.Attribute) and e.attr == 'size' and isinstance(e.value, ast.Name) and \
-                rc.get(e.value.id) in ('row', 'col', 'data'):
+                rc.get(e.value.id) in ROLES:
             return Lin(0, {'z': 1})
         if isinstance(e, ast.Call) and astx.call_name(e) == 'len' and len(e.args) == 1 and \
-                isinstance(e.args[0], ast.Name) and rc.get(e.args[0].id) in ('row', 'col', 'data'):
+                isinstance(e.args[0], ast.Name) and rc.get(e.args[0].id) in ROLES:
+            return Lin(0, {'z': 1})
+        sized = e.value if isinstance(e, ast.Attribute) and e.attr == 'size' else \
+            e.args[0] if isinstance(e, ast.Call) and astx.call_name(e) == 'len' and len(e.args) == 1 else None
+        if isinstance(sized, ast.Subscript) and isinstance(sized.value, ast.Name) and sized.value.id in info_names \
+                and isinstance(sized.slice, ast.Constant) and sized.slice.value in (0, 1, 2):
             return Lin(0, {'z': 1})
         if isinstance(e, ast.BinOp) and isinstance(e.op, (ast.Add, ast.Sub)):
             a, b = lin(e.left), lin(e.right)
@@ -1062,47 +1200,84 @@ def _slices_loop(fa, out, fn, what):
         raise Unknown(e)
 
     full_ok = None
+
+    def info_call(v, st):
+        """True if v is <sub-jacobian>.as_coo_info(...) (records the full= argument)."""
+        nonlocal full_ok
+        if isinstance(v, ast.Call) and astx.callee_attr(v) == 'as_coo_info' and is_sub(astx.receiver(v), fa.at(st)):
+            f = astx.arg(v, 0, 'full')
+            full_ok = (st, isinstance(f, ast.Constant) and f.value is True)
+            return True
+        return False
+
+    def part_of(v, st):
+        """role if v is <info>[k] with constant k (info = a name bound to, or a call of, as_coo_info)."""
+        if isinstance(v, ast.Subscript) and isinstance(v.slice, ast.Constant) and v.slice.value in (0, 1, 2):
+            if (isinstance(v.value, ast.Name) and v.value.id in info_names) or info_call(v.value, st):
+                return ROLES[v.slice.value]
+        return None
+
     try:
         for st in loop.body:
-            if isinstance(st, ast.Assign) and len(st.targets) == 1 and isinstance(st.targets[0], ast.Tuple) and \
-                    isinstance(st.value, ast.Call) and astx.callee_attr(st.value) == 'as_coo_info':
-                els = st.targets[0].elts
-                if len(els) != 3 or astx.path(astx.receiver(st.value)) != sub_var:
-                    raise Unknown(st, 'as_coo_info result is not unpacked into three names')
-                for e, r in zip(els, ('data', 'row', 'col')):
-                    if isinstance(e, ast.Name):
-                        rc[e.id] = r
-                f = astx.arg(st.value, 0, 'full')
-                full_ok = (st, isinstance(f, ast.Constant) and f.value is True)
-                continue
-            if isinstance(st, ast.Assign) and len(st.targets) == 1 and isinstance(st.targets[0], ast.Name) \
-                    and st.targets[0].id in env:
-                env[st.targets[0].id] = lin(st.value)
-                continue
+            if isinstance(st, ast.Assign) and len(st.targets) == 1:
+                t, v = st.targets[0], st.value
+                if isinstance(t, ast.Tuple) and isinstance(v, ast.Call) and astx.callee_attr(v) == 'as_coo_info':
+                    if len(t.elts) != 3 or not info_call(v, st):
+                        raise Unknown(st, 'as_coo_info result is not unpacked into three names')
+                    for e, r in zip(t.elts, ROLES):
+                        if isinstance(e, ast.Name):
+                            rc[e.id] = r
+                    continue
+                if isinstance(t, ast.Name):
+                    if info_call(v, st):
+                        info_names.add(t.id)
+                        continue
+                    if is_sub(v, fa.at(st)):
+                        sub_names.add(t.id)
+                        continue
+                    r = part_of(v, st)
+                    if r is not None:
+                        rc[t.id] = r
+                        continue
+                    if isinstance(v, ast.Name) and v.id in rc:
+                        rc[t.id] = rc[v.id]
+                        continue
+                    try:
+                        env[t.id] = lin(v)
+                    except Unknown:
+                        if t.id in env:
+                            raise
+                        rc.pop(t.id, None)
+                    continue
+                if isinstance(t, ast.Subscript):
+                    tp = fa.xp(t.value, fa.at(st)) or astx.path(t.value)
+                    if tp == 'self._coo_slices':
+                        if not (isinstance(v, ast.Call) and astx.call_name(v) == 'slice' and len(v.args) == 2):
+                            raise Unknown(st, 'stored value is not slice(start, end)')
+                        if astx.path(t.slice) != key_var:
+                            problems.append((st, f'slice stored under `{astx.src(t.slice)}`, not under the loop key',
+                                             'slice-key'))
+                        recorded = (st, lin(v.args[0]), lin(v.args[1]))
+                        continue
+                    if isinstance(t.slice, ast.Slice) and isinstance(v, ast.Name) and v.id in rc:
+                        fills[tp] = (st, lin(t.slice.lower), lin(t.slice.upper), rc[v.id])
+                        continue
+                    r = part_of(v, st)
+                    if isinstance(t.slice, ast.Slice) and r is not None:
+                        fills[tp] = (st, lin(t.slice.lower), lin(t.slice.upper), r)
+                        continue
             if isinstance(st, ast.AugAssign) and isinstance(st.target, ast.Name) and st.target.id in env \
                     and isinstance(st.op, (ast.Add, ast.Sub)):
                 d = lin(st.value)
                 env[st.target.id] = env[st.target.id] + d if isinstance(st.op, ast.Add) else env[st.target.id] - d
                 continue
-            if isinstance(st, ast.Assign) and len(st.targets) == 1 and isinstance(st.targets[0], ast.Subscript):
-                t = st.targets[0]
-                tp = astx.path(t.value)
-                if tp == 'self._coo_slices':
-                    v = st.value
-                    if not (isinstance(v, ast.Call) and astx.call_name(v) == 'slice' and len(v.args) == 2):
-                        raise Unknown(st, 'stored value is not slice(start, end)')
-                    if astx.path(t.slice) != key_var:
-                        problems.append((st, f'slice stored under `{astx.src(t.slice)}`, not under the loop key', 'slice-key'))
-                    recorded = (st, lin(v.args[0]), lin(v.args[1]))
-                    continue
-                if isinstance(t.slice, ast.Slice) and isinstance(st.value, ast.Name) and st.value.id in rc:
-                    fills[tp] = (st, lin(t.slice.lower), lin(t.slice.upper), rc[st.value.id])
-                    continue
             if isinstance(st, ast.Expr) and isinstance(st.value, ast.Call) and astx.callee_attr(st.value) == 'append' \
-                    and len(st.value.args) == 1 and isinstance(st.value.args[0], ast.Name) and \
-                    st.value.args[0].id in rc:
-                fills[astx.path(astx.receiver(st.value))] = (st, None, None, rc[st.value.args[0].id])
-                continue
+                    and len(st.value.args) == 1:
+                a0 = st.value.args[0]
+                r = rc.get(a0.id) if isinstance(a0, ast.Name) else part_of(a0, st)
+                if r is not None:
+                    fills[astx.path(astx.receiver(st.value))] = (st, None, None, r)
+                    continue
             raise Unknown(st, 'statement not understood')
     except Unknown as u:
         out.unsure(fn, u.node if isinstance(u.node, ast.stmt) else loop,
@@ -1970,7 +2145,7 @@ def prod(repo, out):
                 problems.append(None)
                 continue
             rn = ret[-1]
-            e = fa.expand(rn.ast.value, rn) if rn.ast.value is not None else None
+            e = path_expand(fa, p, rn.ast.value, rn) if rn.ast.value is not None else None
             if not (isinstance(e, ast.BinOp) and isinstance(e.op, ast.MatMult)):
                 out.unsure(fn, rn.ast, 'return value is not a matrix product')
                 problems.append(None)
@@ -2137,7 +2312,7 @@ def apply_rule(repo, out):
                 src_view, dst_view = (wview, rview) if mode == 'fwd' else (rview, wview)
                 if tgt != dst_view:
                     problems.append((up, 'target', f'{mode} mode accumulates into {tgt}; it must accumulate into {dst_view}'))
-                e = up.value
+                e = fa.origin(up.value, at)
                 form = None
                 if isinstance(e, ast.BinOp) and isinstance(e.op, ast.MatMult):
                     form = 'lin'
@@ -2161,9 +2336,11 @@ def apply_rule(repo, out):
                         problems.append((up, 'operand', f'{mode} mode multiplies `{astx.path(vec)}`; it must multiply {src_view}'))
                 elif isinstance(e, ast.Call) and astx.callee_attr(e) == 'bincount':
                     form = 'coo'
-                    scat = astx.path(astx.arg(e, 0, 'x'))
+                    scat = astx.path(fa.origin(astx.arg(e, 0, 'x'), at))
                     w = astx.arg(e, 1, 'weights')
-                    ml = astx.path(astx.kwarg(e, 'minlength')) if astx.kwarg(e, 'minlength') is not None else None
+                    w = fa.origin(w, at) if w is not None else None
+                    mle = astx.arg(e, 2, 'minlength')
+                    ml = astx.path(fa.origin(mle, at)) if mle is not None else None
                     gath = None
                     if isinstance(w, ast.BinOp) and isinstance(w.op, ast.Mult):
                         for x in (w.left, w.right):
@@ -2942,7 +3119,121 @@ selftest(
            also=[(JAC, '            input_slices = self._input_slices\n\n            for abs_key, meta',
                   '            input_slices = self._input_slices\n            src_inds_list = None\n\n            for abs_key, meta')]),
 
+    # ---- the same obligations in the refactored shapes accepted by the robustness round
+    Mutant('helper-shape-lexsort-row-major', CSC,
+           '        sort_order = np.lexsort((coo.row, coo.col))\n', '        sort_order = self._sort(coo.col, coo.row)\n',
+           'C11.order-key',
+           also=[(CSC, '    def _pre_update(self, dtype):',
+                  '    @staticmethod\n    def _sort(a, b):\n        order = np.lexsort((a, b))\n        return order\n\n'
+                  '    def _pre_update(self, dtype):')]),
+    Mutant('keys-shape-rows-cols-swapped', COO,
+           '        start = end = 0\n'
+           '        for key, submat in submats.items():\n'
+           '            _, r, c = submat.as_coo_info(full=True)\n'
+           '            end = start + r.size\n'
+           '            rows[start:end] = r\n'
+           '            cols[start:end] = c\n'
+           '            self._coo_slices[key] = slice(start, end)\n'
+           '            start = end\n',
+           '        offset = 0\n'
+           '        for key in submats:\n'
+           '            coo_info = submats[key].as_coo_info(full=True)\n'
+           '            stop = offset + coo_info[1].size\n'
+           '            rows[offset:stop] = coo_info[2]\n'
+           '            cols[offset:stop] = coo_info[1]\n'
+           '            self._coo_slices[key] = slice(offset, stop)\n'
+           '            offset = stop\n', 'C11.slices'),
+    Mutant('operator-shape-rev-without-transpose', COO,
+           "        if mode == 'fwd':\n            return self._matrix @ self._get_masked_arr(in_vec, mask)\n"
+           "        else:  # rev\n            return self.transpose() @ self._get_masked_arr(in_vec, mask)",
+           "        if mode == 'fwd':\n            operator = self.transpose()\n"
+           "        else:  # rev\n            operator = self._matrix\n"
+           "        return operator @ self._get_masked_arr(in_vec, mask)", 'C11.prod'),
+    Mutant('weights-temp-shape-rows-cols-swapped', SUBJAC,
+           '        self._in_view += bincount(self.cols, self._res_view[self.rows] * val,\n'
+           '                                  minlength=self.parent_ncols)',
+           '        weighted = self._res_view[self.cols] * val\n'
+           '        self._in_view += bincount(self.rows, weights=weighted, minlength=self.parent_ncols)', 'C11.apply'),
+
     # ---- twins
+    # ---- shapes accepted after the robustness round (behaviour-preserving refactors)
+    Twin('twin-coo-build-keys-lookup-tuple-index', COO,
+         '        start = end = 0\n'
+         '        for key, submat in submats.items():\n'
+         '            _, r, c = submat.as_coo_info(full=True)\n'
+         '            end = start + r.size\n'
+         '            rows[start:end] = r\n'
+         '            cols[start:end] = c\n'
+         '            self._coo_slices[key] = slice(start, end)\n'
+         '            start = end\n',
+         '        offset = 0\n'
+         '        for key in submats:\n'
+         '            coo_info = submats[key].as_coo_info(full=True)\n'
+         '            sub_rows = coo_info[1]\n'
+         '            sub_cols = coo_info[2]\n'
+         '            stop = offset + sub_rows.size\n'
+         '            rows[offset:stop] = sub_rows\n'
+         '            cols[offset:stop] = sub_cols\n'
+         '            coo_slices[key] = slice(offset, stop)\n'
+         '            offset = stop\n',
+         also=[(COO, '        submats = self._submats\n        self._coo_slices = {}\n',
+                '        submats = self._submats\n        coo_slices = self._coo_slices = {}\n')]),
+    Twin('twin-csc-build-map-helper', CSC,
+         '        sort_order = np.lexsort((coo.row, coo.col))\n'
+         '        sorted_row = coo.row[sort_order]\n'
+         '        sorted_col = coo.col[sort_order]\n'
+         '\n'
+         '        # Mark the first occurrence of each unique (row, col) pair\n'
+         '        is_new = np.ones(n_entries, dtype=bool)\n'
+         '        if n_entries > 1:\n'
+         '            is_new[1:] = (np.diff(sorted_row) != 0) | (np.diff(sorted_col) != 0)\n'
+         '\n'
+         '        # Assign CSC indices: increment for each new unique entry, same for duplicates\n'
+         '        csc_idx = np.cumsum(is_new, dtype=INT_DTYPE) - 1\n'
+         '\n'
+         '        # Map back to original COO order\n'
+         '        self._coo_to_csc_map = np.empty(n_entries, dtype=INT_DTYPE)\n'
+         '        self._coo_to_csc_map[sort_order] = csc_idx\n',
+         '        self._coo_to_csc_map = coo2csc = self._get_coo_to_csc_map(coo.row, coo.col,\n'
+         '                                                                  coo.data.size)\n',
+         also=[(CSC, '            idx = self._coo_to_csc_map[coo_slice]\n            n = idx.size\n'
+                     '            self._has_within_subjac_duplicates[key] = (',
+                '            idx = coo2csc[coo_slice]\n            n = idx.size\n            has_dups[key] = ('),
+               (CSC, '        self._has_within_subjac_duplicates = {}\n        for key, coo_slice',
+                '        self._has_within_subjac_duplicates = has_dups = {}\n        for key, coo_slice'),
+               (CSC, '    def _pre_update(self, dtype):',
+                '    @staticmethod\n'
+                '    def _get_coo_to_csc_map(coo_row, coo_col, n_entries):\n'
+                '        sort_order = np.lexsort((coo_row, coo_col))\n'
+                '        sorted_row = coo_row[sort_order]\n'
+                '        sorted_col = coo_col[sort_order]\n'
+                '        is_new = np.ones(n_entries, dtype=bool)\n'
+                '        if n_entries > 1:\n'
+                '            is_new[1:] = (np.diff(sorted_row) != 0) | (np.diff(sorted_col) != 0)\n'
+                '        csc_idx = np.cumsum(is_new, dtype=INT_DTYPE) - 1\n'
+                '        coo_to_csc_map = np.empty(n_entries, dtype=INT_DTYPE)\n'
+                '        coo_to_csc_map[sort_order] = csc_idx\n'
+                '        return coo_to_csc_map\n'
+                '\n'
+                '    def _pre_update(self, dtype):')]),
+    Twin('twin-omcoo-bincount-weights-temporary', SUBJAC,
+         "        val = self.info['val'] if randgen is None else self.get_rand_val(randgen)\n"
+         '        self._in_view += bincount(self.cols, self._res_view[self.rows] * val,\n'
+         '                                  minlength=self.parent_ncols)',
+         "        val = self.get_rand_val(randgen) if randgen is not None else self.info['val']\n"
+         '        weighted = self._res_view[self.rows] * val\n'
+         '        self._in_view += bincount(self.cols, weights=weighted, minlength=self.parent_ncols)'),
+    Twin('twin-coo-prod-operator-selected-first', COO,
+         "        if mode == 'fwd':\n            return self._matrix @ self._get_masked_arr(in_vec, mask)\n"
+         "        else:  # rev\n            return self.transpose() @ self._get_masked_arr(in_vec, mask)",
+         "        if mode == 'fwd':\n            operator = self._matrix\n"
+         "        else:  # rev\n            operator = self.transpose()\n"
+         "        return operator @ self._get_masked_arr(in_vec, mask)"),
+    Twin('twin-masked-arr-inverted-guard', MAT,
+         '        if mask is None:\n            return in_arr\n        mask_arr = in_arr.copy()\n'
+         '        mask_arr[mask] = 0.0\n        return mask_arr',
+         '        if mask is not None:\n            masked = in_arr.copy()\n            masked[mask] = 0.0\n'
+         '            return masked\n        return in_arr'),
     Twin('twin-factor-reset-moved-into-branch', JAC,
          '                wrt = abs_key[1]\n                factor = None\n', '                wrt = abs_key[1]\n',
          also=[(JAC, '                        if in_units and out_units and in_units != out_units:\n',
